@@ -224,9 +224,20 @@ class RefStage(object):
                     TaxonomyTree)
                 from cell_type_mapper.diff_exp.score_utils import (
                     read_precomputed_stats)
-                tree = TaxonomyTree.from_precomputed_stats(out)
+                try:
+                    tree = TaxonomyTree.from_precomputed_stats(out)
+                    how = 'taxonomy and statistics readable'
+                except Exception:
+                    # the reference-marker function takes the taxonomy as
+                    # an argument: a file without an embedded taxonomy is
+                    # still a complete statistics file to it
+                    import json as _json
+                    tree = TaxonomyTree(data=_json.loads(_json.dumps(
+                        self.ref.tree_data)))
+                    how = ("statistics readable with the caller's taxonomy, "
+                           "as find_markers_for_all_taxonomy_pairs takes it")
                 read_precomputed_stats(out, tree, for_marker_selection=True)
-                return True, 'taxonomy and statistics readable'
+                return True, how
             if self.kind in ('refmarkers', 'frompmask'):
                 from cell_type_mapper.marker_selection.marker_array import (
                     MarkerGeneArray)
